@@ -141,6 +141,7 @@ def implements_interval_interface(x):
 M.contract('contracts.C13_filter:implements_interval_interface',
            params=dict(x=CONCRETE_INTERVAL),
            ensures={'every concrete interval class behaves as the interface IntervalI assumes': lambda result: result},
+           cover=False,     # the `return False` exits of the harness are unreachable exactly when the claim holds
            raises_only=())
 
 M.contract(P_INTERVALS + ':point', params=dict(x=Int), ghosts=dict(n=Int), returns=ANY_INTERVAL,
@@ -638,7 +639,10 @@ M.contract('exactly_lib.impls.types.line_matcher.model_construction:adapt_to_lin
                'adapted': lambda result: wf(result) and (result.is_empty or (
                        (result.lower is None or result.lower > FIRST_LINE_NUMBER)
                        and (result.upper is None or result.upper >= FIRST_LINE_NUMBER))),
-           }, raises_only=())
+           },
+           # dead code for well-formed intervals (lower <= upper survives max(., 1)): reachability cover exempted
+           cover=('return intervals.Empty()',),
+           raises_only=())
 
 
 def is_adapted(x):
